@@ -12,7 +12,7 @@ FLAVORS = ["asan"]
 RULE = ("6 baseline scenarios (3 ticks each) that together configure every core plugin (all 7 detectors + dump_cgroup_overview, the five kill "
         "plugins wet and recursive, senpai in both modes, a ruleset-level cgroup, the root cgroup '/') plus a probe plugin; fault spaces: "
         "F1 every (cgroup, control file) x {absent, empty, unreadable(EACCES), opens but every read(2) fails}; F2 each key removed from /proc/vmstat, /proc/meminfo, "
-        "memory.stat, and /proc/swaps, meminfo, vmstat, pressure files absent/empty/malformed; F3 directory entries without d_type; F6 write(2) on each writable control file / the kmsg sink failing with EBUSY, EINTR (1 and 3 times), ENOSPC, ENODEV, EAGAIN or short, xattr reads failing with EIO/EACCES/ENOTSUP/ENODEV, trusted.* xattr writes refused; F4 for "
+        "memory.stat, and /proc/swaps, meminfo, vmstat, pressure files absent/empty/malformed, permanently or for a single tick; F3 directory entries without d_type; F6 write(2) on each writable control file / the kmsg sink failing with EBUSY, EINTR (1 and 3 times), ENOSPC, ENODEV, EAGAIN or short, xattr reads failing with EIO/EACCES/ENOTSUP/ENODEV, trusted.* xattr writes refused; F4 for "
         "every index k of the tick's file-access sequence (open/openat/fopen/faccessat/fgetxattr as seen at the libc boundary) x every "
         "cgroup x {remove, remove+re-create}; F5 seeded multi-faults. One process per case under ASan+UBSan+_GLIBCXX_ASSERTIONS. The run "
         "must finish all ticks with no sanitizer report, signal, abort, hang or exception out of Oomd::run(); absent/unreadable files must "
@@ -152,6 +152,20 @@ def fault_cases(seed, tier):
         for pf in ("vmstat", "meminfo", "swaps", "pressure/memory", "pressure/io", "sys/vm/swappiness"):
             for mode in ("absent", "empty", "eacces", "readfail"):
                 yield mk(bi, "F2", {"proc": pf, "mode": mode}, file_faults=[{"proc": pf, "mode": mode, "from_tick": rng.choice([0, 1])}])
+        # the same faults for one tick only: the file / key is back on the next tick (state kept from before the gap must not be
+        # trusted blindly when the sample returns)
+        for pf in ("vmstat", "meminfo", "swaps", "pressure/memory", "pressure/io"):
+            for mode in ("absent", "empty", "eacces", "readfail"):
+                yield mk(bi, "F2", {"proc": pf, "mode": mode, "transient": True}, file_faults=[{"proc": pf, "mode": mode, "from_tick": 1, "to_tick": 1}])
+        for key in ("pswpout", "pgscan_kswapd", "nr_free_pages"):
+            vm = CG.parse_kv(scn["proc"]["vmstat"])
+            vm.pop(key, None)
+            txt = "".join("%s %d\n" % kv for kv in vm.items())
+            yield mk(bi, "F2", {"vmstat_without": key, "transient": True}, ticks=[dict(t, ops=t["ops"] + ([{"op": "write", "proc": "vmstat", "text": txt}] if i == 1 else [{"op": "write", "proc": "vmstat", "text": scn["proc"]["vmstat"]}] if i == 2 else [])) for i, t in enumerate(scn["ticks"])])
+        for rel in WL[1:3]:
+            for fn in ("memory.stat", "io.stat", "memory.current", "memory.pressure"):
+                for mode in ("absent", "readfail"):
+                    yield mk(bi, "F1", {"cg": rel, "file": fn, "mode": mode, "transient": True}, file_faults=[{"cg": rel, "file": fn, "mode": mode, "from_tick": 1, "to_tick": 1}])
         for key in ("pswpout", "pgscan_kswapd", "pgscan_direct", "nr_free_pages"):
             vm = CG.parse_kv(scn["proc"]["vmstat"])
             vm.pop(key, None)
@@ -241,8 +255,9 @@ def judge(case, results):
     if m["kind"] == "F1" and m["fault"]["mode"] in ("absent", "eacces", "readfail"):
         f = m["fault"]
         ft = scn["file_faults"][0]["from_tick"]
+        tt = scn["file_faults"][0].get("to_tick", 1 << 30)
         for ti, evs in enumerate(ticks):
-            if ti < ft:
+            if ti < ft or ti > tt:
                 continue
             pr = [e for e in evs if e.get("ev") == "probe"]
             if not pr:
